@@ -256,5 +256,38 @@ Proof.
   destruct (RecompLooseMain.recompress_total_loose pay pay_reduce (pay_join mode) K st (E2eGraph.join_sym mode) G (Some c) V) as (out & paths & H).
   exists out. unfold compress_graph. now rewrite H.
 Qed.
+
+(* the surviving k-mers are pairwise distinct *)
+Lemma surv_nodes_nodup K st G c : NoDup (gk K st G) -> NoDup (gk K st (surv_nodes G c)).
+Proof.
+  intro Hnd. rewrite surv_gk. apply (NoDup_flat_map_sub (nkv K st G) _ (seq 0 (length G))).
+  - apply survivors_nodup.
+  - intros x Hx. apply (survivors_spec pay G (Some c)) in Hx as [Hx _]. apply in_seq. unfold graph, gnode, node_t in *. lia.
+  - unfold nkv. rewrite (RecompUnitig.flat_map_seq_nth (PipelineCheck.node_kmers K st) G). exact Hnd.
+Qed.
+
+(* the assembly is a function of (k-mers, links, payloads per k-mer): the result of the censored re-compression is the
+   same assembly as ANY unitig graph of the surviving k-mers and the links between them *)
+Theorem censor_same_assembly K st mode (idf colf : dna -> N) (S' SL : list dna) (G : list node_t) (c : list nat) (out g2 : list node_t) :
+  1 <= K ->
+  lgraph_ok K st (kjoin_f mode colf) S' G -> NoDup (gk K st G) ->
+  (forall w, In w SL <-> In w S' /\ both_in K st (fun k => In k (gk K st (surv_nodes G c))) w) ->
+  (forall w, In w SL -> exists v, wf_dna v /\ length v = S K /\ w = cn st v) ->
+  PipelineCheck.payload_ok K st mode idf colf G ->
+  compress_graph pay pay_reduce (pay_join mode) K st G (Some c) = Some out ->
+  unitig_graph K st mode colf g2 -> NoDup (gk K st g2) ->
+  (forall x, In x (gk K st g2) <-> In x (gk K st (surv_nodes G c))) ->
+  (forall w, In w (graph_links K st g2) <-> In w SL) ->
+  PipelineCheck.payload_ok K st mode idf colf g2 ->
+  same_assembly K st mode out g2.
+Proof.
+  intros HK HG Hnd HS Hwf Hpay Hc U2 N2 K2 L2 P2.
+  destruct (recompress_censor_unitig K st mode idf colf S' SL G c out HK HG Hnd HS Hwf Hpay Hc) as (Pk & Lk & U1 & P1).
+  apply (unitig_unique K st mode idf colf out g2 U1 U2); auto.
+  - eapply Permutation_NoDup; [symmetry; exact Pk | now apply surv_nodes_nodup].
+  - intro x. rewrite K2. split; intro H; [eapply Permutation_in; [exact Pk | exact H] | eapply Permutation_in; [symmetry; exact Pk | exact H]].
+  - intro w. now rewrite Lk, L2.
+Qed.
 Print Assumptions recompress_censor_unitig.
+Print Assumptions censor_same_assembly.
 Print Assumptions recompress_censor_total.
